@@ -24,11 +24,20 @@ HOSTS = {
     'line-num': ('[assert]\ncontents -rel-home one.txt : any line : line-num ( %s )\n',
                  {'T': '>= 1', 'F': '< 1'}, {}),
 }
+# quantifier hosts: "Q" is a quantifier over a collection of exactly ONE element (one line / one file)
+_CONST = {'T': 'constant true', 'F': 'constant false'}
+for _n, _tmpl, _q in (('text/any line', '[assert]\ncontents -rel-home one.txt : %s\n', 'any line :'),
+                      ('text/every line', '[assert]\ncontents -rel-home one.txt : %s\n', 'every line :'),
+                      ('files/any file', '[setup]\ndir d\nfile d/f\n[assert]\ndir-contents d : %s\n', 'any file :'),
+                      ('files/every file', '[setup]\ndir d\nfile d/f\n[assert]\ndir-contents d : %s\n', 'every file :')):
+    HOSTS[_n] = (_tmpl, dict(_CONST, Q=_q), {})
+QUANT_HOSTS = [h for h in HOSTS if '/' in h]
 EXP = {'T': ('PASS', 0), 'F': ('FAIL', 32), 'ERR': ('SYNTAX_ERROR', 65)}
 
 
-def cfg(mode, max_tokens, invariants):
-    return ('SPECIFICATION Spec\nCONSTANTS MaxTokens = %d\n Mode = "%s"\n' % (max_tokens, mode)
+def cfg(mode, max_tokens, invariants, quant=False):
+    return ('SPECIFICATION Spec\nCONSTANTS MaxTokens = %d\n Mode = "%s"\n Quant = %s\n'
+            % (max_tokens, mode, 'TRUE' if quant else 'FALSE')
             + ''.join('INVARIANT %s\n' % i for i in invariants) + 'CHECK_DEADLOCK FALSE\n')
 
 
@@ -141,6 +150,8 @@ def run(ctx):
     malformed = [c for c in strings if acceptable(c) == {'ERR'}]
     with ctx.pool() as pool:
         for host in HOSTS:
+            if host in QUANT_HOSTS:
+                continue
             mal = (malformed if host == 'integer' and not quick else
                    rnd.sample(malformed, min(len(malformed), (8000 if host == 'integer' else 1500) if quick else 40000)))
             run_host(ctx, pool, host, wellformed + mal, 'token strings <= %d' % ls)
@@ -150,6 +161,22 @@ def run(ctx):
         for host in ('integer', 'line-num', 'files'):
             nm = near if not quick or host == 'integer' else rnd.sample(near, min(len(near), 2500))
             run_host(ctx, pool, host, nm, 'near misses')
+        # quantifiers (`every line :` ...) bind like a prefix operator: their operand is a simple expression
+        lq = 5 if quick else 6
+        mcq = ctx.tlc('ExprGrammar', cfg('strings', lq + 1, ['QuantifierIsPrefixOperator', 'LeftToRight'], quant=True),
+                      coverage=True, name='mc-quantifier', timeout=3000)
+        ctx.require_coverage(mcq, ['Read'])
+        eq = ctx.tlc('ExprGrammarExport', cfg('strings', lq, ['ExportStrings'], quant=True), workers=1,
+                     name='export-quantifier', count=False, timeout=3000)
+        qs = [c for c in eq.printed_json('STR') if 'Q' in c['ts']]
+        qwell = [c for c in qs if acceptable(c) != {'ERR'}]
+        qmal = [c for c in qs if acceptable(c) == {'ERR'}]
+        if not qwell or not qmal:
+            raise core.MachineryFailure('no quantifier strings')
+        for host in QUANT_HOSTS:
+            w = qwell if not quick else rnd.sample(qwell, min(len(qwell), 1500))
+            run_host(ctx, pool, host, w + rnd.sample(qmal, min(len(qmal), 500 if quick else 10000)),
+                     'strings with quantifiers <= %d' % lq)
         # laziness
         lz = lazy_cases(trees)
         if quick:
